@@ -1344,3 +1344,87 @@ Qed.
 
 Lemma entry_mem x : existsb (entry_eqb x) all_sub_fields = true -> In x all_sub_fields.
 Proof. intros H. apply existsb_exists in H as (y & Hy & E). apply entry_eqb_eq in E. now subst. Qed.
+
+(* ======================= round 6: layouts — the name lookup on a record that has other fields ======================= *)
+(* the alias table sends every alias to the name it stands for (no key twice), and no sub-field name is itself an alias *)
+Definition alias_ok : bool :=
+  forallb (fun p => String.eqb (canon (fst p)) (snd p)) old_names
+  && forallb (fun e => let '(_, n, _, _) := e in String.eqb (canon n) n) all_sub_fields.
+Lemma alias_ok_true : alias_ok = true.
+Proof. vm_compute. reflexivity. Qed.
+
+Lemma canon_alias a n : In (a, n) old_names -> canon a = n.
+Proof.
+  intros H. pose proof alias_ok_true as T. unfold alias_ok in T. apply andb_true_iff in T as [T _].
+  rewrite forallb_forall in T. specialize (T _ H). simpl in T. now apply String.eqb_eq in T.
+Qed.
+
+Lemma canon_sub_field fmt n c m : In (fmt, n, c, m) all_sub_fields -> canon n = n.
+Proof.
+  intros H. pose proof alias_ok_true as T. unfold alias_ok in T. apply andb_true_iff in T as [_ T].
+  rewrite forallb_forall in T. specialize (T _ H). simpl in T. now apply String.eqb_eq in T.
+Qed.
+
+(* the sub-field table is asked first: whatever fields the array has (also one of that very name) *)
+Lemma resolve_sub_field_first fmt fields name c m :
+  find_sf fmt (canon name) = Some (c, m) -> resolve fmt fields name = TSub c m.
+Proof. intros F. unfold resolve. now rewrite F. Qed.
+
+Lemma resolve_every_layout fmt fields name :
+  In fmt known_fmts -> In name (fmt_names fmt) ->
+  exists c m, find_sf fmt name = Some (c, m)
+              /\ resolve fmt fields name = TSub c m
+              /\ (forall alias, In (alias, name) old_names -> resolve fmt fields alias = TSub c m).
+Proof.
+  intros Hf Hn. destruct (fmt_names_found fmt name Hf Hn) as (c & m & F). exists c, m.
+  pose proof (canon_sub_field _ _ _ _ (find_sf_in _ _ _ _ F)) as Hc.
+  split; [exact F|]. split.
+  - apply resolve_sub_field_first. now rewrite Hc.
+  - intros a Ha. apply resolve_sub_field_first. now rewrite (canon_alias _ _ Ha).
+Qed.
+
+(* only a name that is not a sub-field of the format reaches the fields of the array *)
+Lemma resolve_field fmt fields name n : resolve fmt fields name = TField n ->
+  find_sf fmt (canon name) = None /\ n = canon name /\ In n fields.
+Proof.
+  unfold resolve. destruct (find_sf fmt (canon name)) as [[c m]|]; [discriminate|].
+  destruct (existsb _ fields) eqn:E; [|discriminate]. intros [= <-]. split; [reflexivity|]. split; [reflexivity|].
+  apply existsb_exists in E as (y & Hy & E). apply String.eqb_eq in E. now subst.
+Qed.
+
+(* reading by a sub-field name: the bits of the packed byte, on every layout *)
+Lemma xread_sub_field fmt x name c m :
+  find_sf fmt (canon name) = Some (c, m) -> xread fmt x name = rec_read fmt (fst x) (canon name).
+Proof.
+  intros F. unfold xread. rewrite (resolve_sub_field_first _ _ _ _ _ F). unfold rec_read. now rewrite F.
+Qed.
+
+(* assigning by a sub-field name: the packed columns are assigned exactly as on the layout without other fields
+   (so every theorem about rec_assign_seq speaks about every layout), and the other fields keep what they store -
+   they only follow the growth of the record by zero points; a refused assignment produces nothing *)
+Lemma xassign_sub_field fmt x name c m vs :
+  find_sf fmt (canon name) = Some (c, m) ->
+  xassign_sub fmt x name vs
+  = Some (match rec_assign_seq fmt (fst x) (canon name) vs with
+          | Ok r' => Ok (r', rec_grow (snd x) (rec_len r'))
+          | Err e => Err e
+          end).
+Proof. intros F. unfold xassign_sub. now rewrite (resolve_sub_field_first _ _ _ _ _ F). Qed.
+
+Lemma xassign_fields_kept fmt x name vs x' :
+  xassign_sub fmt x name vs = Some (Ok x') ->
+  rec_assign_seq fmt (fst x) (canon name) vs = Ok (fst x')
+  /\ map fst (snd x') = map fst (snd x)
+  /\ (forall f, In f (map fst (snd x)) -> col_get (snd x') f = grow (col_get (snd x) f) (rec_len (fst x'))).
+Proof.
+  unfold xassign_sub. destruct (resolve fmt (xfields x) name); try discriminate.
+  destruct (rec_assign_seq fmt (fst x) (canon name) vs) as [r'|e] eqn:E; intros [= <-]; simpl.
+  split; [reflexivity|]. split; [apply rec_grow_keys|]. intros f Hf. now apply col_get_grow.
+Qed.
+
+Lemma xassign_refused fmt x name c m vs :
+  find_sf fmt (canon name) = Some (c, m) -> (exists v, In v vs /\ (v > sf_max m \/ v < 0)) ->
+  xassign_sub fmt x name vs = Some (Err EOverflow).
+Proof.
+  intros F Hv. rewrite (xassign_sub_field _ _ _ _ _ _ F). now rewrite (seq_overflow _ _ _ _ _ _ F Hv).
+Qed.
